@@ -436,7 +436,7 @@ def rename_nets(nl, m):
 # text
 # ---------------------------------------------------------------------------
 
-COMMENT_WORDS = ["note", "x", "gate", "todo", "1'b0", "a & b", "and g(a,b)", "wire w", "(", ")", "assign", "//", "http://a.b/c", "/ /", "* /"]
+COMMENT_WORDS = ["note", "x", "gate", "todo", "1'b0", "a & b", "and g(a,b)", "wire w", "(", ")", "assign", "//", "http://a.b/c", "/ /", "* /", "endmodule", "module old (a, b);", "end of module", "\\esc"]
 LINE_COMMENT_WORDS = COMMENT_WORDS + ["/*", "*/", "/* x */"]
 
 
